@@ -16,7 +16,7 @@ sys.path.insert(0, HERE)
 import mutate  # noqa  (gen_mutants / apply)
 
 VERIF = os.path.dirname(HERE)
-SRC = '/repo'
+SRC = os.environ.get('REPLAY_SRC', '/repo')      # a frozen snapshot of the library (so that /repo can keep changing)
 ROOT = '/root/scratch/replay'
 
 # dead or out-of-scope code (DESIGN section 8): mutants there are equivalent by construction; recorded, not replayed
@@ -180,6 +180,8 @@ if __name__ == '__main__':
         src = open(os.path.join(SRC, f)).read()
         _, muts = mutate.gen_mutants(src)
         jobs += [(f, m) for m in muts]
+    import random
+    random.Random(20260927).shuffle(jobs)       # partial results are a uniform sample of all files
     jobs = jobs[::every]
     print('mutants', len(jobs), 'already done', len(done), flush=True)
     chunks = [(w, jobs[w::W], done) for w in range(W)]
